@@ -183,7 +183,9 @@ Section Build.
       else if unresolved F st c then
         (if ap then install F st c m d (Stub c m) else (st, Some EUnresolved))
       else
-        match deps_with (fun st c' m' => build n' st true c' m' d) c m (c_fields cd) st with
+        (* a nailed builder compiles the nested class' DEFAULT method on demand (dialect = None, fix 28d8957):
+           the generated call value.__mashumaro_<m>__(flags) needs that method, whatever the dialect *)
+        match deps_with (fun st c' m' => build n' st true c' m' None) c m (c_fields cd) st with
         | (st1, None) => install F st1 c m d (Compiled c m d)
         | (st1, Some e) => (st1, Some e)
         end
